@@ -30,7 +30,7 @@ func init() {
 			"every error prototype of the root scope raised explicitly (kind and message reach try/catch through a nested call and a defer); callbacks: every property reachable from 10 kinds of receivers (Either values excluded: a call on them is an Either step, C13's subject) (names discovered at run time) is handed a raising callback in 5 call forms, plus the predicate forms ===, !==, case, asFor?: whenever the callback ran, its error comes out; " +
 			"uncaught errors through the real command-line binary (script file, -e one-liner) for 5 error kinds x 14 messages (with %, quotes, backslashes, non-ASCII, empty): stdout stops at the raise, exit status non-zero, first stderr line is kind and message; " +
 			"oracle: nothing but pending-defer output after the marker, no assignment, injected kind+message reaches the handler/top, no error object stored inside a value; " +
-			"non-trivial = every case (each has exactly one injected fault); distinct = distinct (construct, slot, inner construct, inner slot, context, fault kind)",
+			"non-trivial = every case (each has exactly one injected fault); distinct = distinct (construct, slot, inner construct, inner slot, context, fault kind); round 8: Every expression construct is also evaluated three times inside one function with its slot failing on the first and third evaluation only; 14 programs spread over several files run by the binary (a failing or unparsable file imported / invited twice under three handlers, `pangaea test` trees with the failing file in every position).",
 		Assumptions: []string{
 			"errors raised inside hooks the interpreter calls itself (B, S, ==) are outside the property and not injected",
 			"the order in which slots before the fault are evaluated is C08's subject and is not judged here",
